@@ -15,6 +15,15 @@
 //!       the generator fills it in, the worker recomputes it and refuses a request that differs.
 //!   `<assign>` = `-` or `x<pkg>=x<version text>` `,`-joined, package names distinct.
 //!
+//!   ver.cmpraw <version> <version>        -> `<lt|eq|gt|PANIC>`: `Version::cmp` on two values built LITERALLY
+//!       (`Version { epoch, upstream_version, debian_revision }`, not through `from_str`), each given as
+//!       `<epoch|none>:x<upstream>:<x<revision>|none>`. Model: the byte-index twin `DebVersion.compareB`
+//!       (Model/DebVersionRaw.lean). Oracle only when both values have version characters only
+//!       (`ValidV` of Props/C12Order.lean): dpkg order on the fields, absent revision = "" as in dpkg.
+//!   lk.forms <assign> <name>              -> `m=<v> c=<v> p=<v|->`: `lookup_version(name)` of the three
+//!       `VersionLookup` impls themselves (`HashMap<String, Version>`, a closure, `(String, Version)`),
+//!       `<v>` = `none` or the version as above. Model: `Lookup.ofMap` / `ofFn` / `ofPair`.
+//!
 //! `Relations::satisfied_by` and `Entry::satisfied_by` want `impl VersionLookup + Copy`; neither
 //! `HashMap<String, Version>` nor `(String, Version)` is `Copy`, so those two forms reach the
 //! field-level evaluators only through a closure that forwards to their `lookup_version`. The
@@ -288,8 +297,94 @@ fn dec_assign(s: &str) -> Option<Vec<(String, String)>> {
     Some(out)
 }
 
+/// `<epoch|none>:x<upstream>:<x<revision>|none>` -> a `Version` built literally
+fn dec_version_raw(s: &str) -> Option<Version> {
+    let parts: Vec<&str> = s.split(':').collect();
+    if parts.len() != 3 {
+        return None;
+    }
+    let epoch = if parts[0] == "none" { None } else { Some(parts[0].parse::<u32>().ok()?) };
+    let upstream_version = ds(parts[1])?;
+    let debian_revision = if parts[2] == "none" { None } else { Some(ds(parts[2])?) };
+    Some(Version { epoch, upstream_version, debian_revision })
+}
+
+/// version characters only (the image of `Version::from_str` lies inside)
+fn valid_raw(v: &Version) -> bool {
+    v.upstream_version.bytes().all(|c| c.is_ascii_alphanumeric() || b".+:~-".contains(&c))
+        && v.debian_revision.as_deref().map_or(true, |r| r.bytes().all(|c| c.is_ascii_alphanumeric() || b".+~".contains(&c)))
+}
+
+/// `dpkg_version_compare` on the three fields: epoch, `verrevcmp(version)`, `verrevcmp(revision)`
+/// with a missing revision compared as "" (dpkg), not "0" (the crate)
+fn ref_cmp_fields(v: &Version, w: &Version) -> Ordering {
+    v.epoch.unwrap_or(0)
+        .cmp(&w.epoch.unwrap_or(0))
+        .then(ref_verrevcmp(v.upstream_version.as_bytes(), w.upstream_version.as_bytes()))
+        .then(ref_verrevcmp(v.debian_revision.as_deref().unwrap_or("").as_bytes(), w.debian_revision.as_deref().unwrap_or("").as_bytes()))
+}
+
+fn show_lookup(v: Option<Version>) -> String {
+    v.as_ref().map(enc_version).unwrap_or_else(|| "none".to_string())
+}
+
 pub fn handle(op: &str, a: &[&str]) -> Option<Resp> {
     match (op, a) {
+        ("ver.cmpraw", [x, y]) => {
+            let v = dec_version_raw(x)?;
+            let w = dec_version_raw(y)?;
+            let real = guard(|| v.cmp(&w));
+            let mut fail = None;
+            if valid_raw(&v) && valid_raw(&w) {
+                let want = ref_cmp_fields(&v, &w);
+                match real {
+                    None => fail = Some(format!("Version::cmp({:?}, {:?}) panics on values with version characters only", v, w)),
+                    Some(r) if r != want => fail = Some(format!("Version::cmp({:?}, {:?}) = {:?}, dpkg order says {:?}", v, w, r, want)),
+                    _ => {}
+                }
+            }
+            let c = match real {
+                Some(Ordering::Less) => "lt",
+                Some(Ordering::Equal) => "eq",
+                Some(Ordering::Greater) => "gt",
+                None => "PANIC",
+            };
+            Some(Resp::with(c.to_string(), fail))
+        }
+        ("lk.forms", [asg, name]) => {
+            let assign_txt = dec_assign(asg)?;
+            let name = ds(name)?;
+            let mut assign: Vec<(String, Version)> = vec![];
+            for (p, v) in &assign_txt {
+                assign.push((p.clone(), Version::from_str(v).ok()?));
+            }
+            // impl VersionLookup for HashMap<String, Version> (lib.rs:115-119)
+            let map: HashMap<String, Version> = assign.iter().cloned().collect();
+            let m = guard(|| map.lookup_version(&name).map(|c| c.into_owned()));
+            // impl<F: Fn(&str) -> Option<Version>> VersionLookup for F (lib.rs:121-128)
+            let closure = |n: &str| -> Option<Version> { assign.iter().find(|(p, _)| p == n).map(|(_, v)| v.clone()) };
+            let c = guard(|| closure.lookup_version(&name).map(|c| c.into_owned()));
+            // impl VersionLookup for (String, Version) (lib.rs:130-138)
+            let p = if assign.len() == 1 {
+                let pair: (String, Version) = assign[0].clone();
+                Some(guard(|| pair.lookup_version(&name).map(|c| c.into_owned())))
+            } else {
+                None
+            };
+            let sh = |r: Option<Option<Version>>| r.map(show_lookup).unwrap_or_else(|| "PANIC".to_string());
+            let obs = format!("m={} c={} p={}", sh(m.clone()), sh(c.clone()), p.clone().map(sh).unwrap_or_else(|| "-".to_string()));
+            // oracle: the three forms denote the same assignment
+            let want = assign.iter().find(|(q, _)| *q == name).map(|(_, v)| v.clone());
+            let same = |r: &Option<Option<Version>>| match r {
+                Some(got) => got.as_ref().map(enc_version) == want.as_ref().map(enc_version),
+                None => false,
+            };
+            let mut fail = None;
+            if !same(&m) || !same(&c) || p.as_ref().map_or(false, |r| !same(r)) {
+                fail = Some(format!("lookup_version({:?}) differs between the forms / from the assignment: {}", name, obs));
+            }
+            Some(Resp::with(obs, fail))
+        }
         ("ver.cmp", [x, y]) => {
             let x = ds(x)?;
             let y = ds(y)?;
@@ -563,6 +658,24 @@ pub const VERSIONS: [&str; 64] = [
 
 const OPS: [&str; 5] = ["<<", "<=", "=", ">=", ">>"];
 
+/// (epoch, upstream, revision) of `Version` values built literally
+pub const RAW_VERSIONS: [(Option<u32>, &str, Option<&str>); 40] = [
+    (None, "1", None), (None, "1.0", None), (None, "1.0~rc1", None), (None, "", None), (None, "0", None), (None, "00", None),
+    (None, "~", None), (None, "a", None), (None, "+", None), (None, "1-1", None), (None, "2147483647", None),
+    (None, "2147483648", None), (None, "\u{e9}", None), (None, "\u{e9}1", None), (None, "\u{e9}\u{e9}1", None),
+    (None, "\u{e9}\u{e9}\u{e9}1", None), (None, "1\u{e9}", None), (None, "1\u{e9}2", None), (None, "\u{20ac}1", None),
+    (None, "\u{20ac}\u{20ac}\u{20ac}1", None), (None, "a\u{20ac}1", None), (None, "\u{1d11e}1", None),
+    (None, "\u{1d11e}\u{1d11e}\u{1d11e}\u{1d11e}1", None), (None, "\u{ff11}", None), (None, "\u{e9}.1", None),
+    (None, "\u{e9}2147483648", None), (None, "\u{e9}\u{e9}2147483648", None), (None, "1.0", Some("0")), (None, "1.0", Some("")),
+    (None, "1.0", Some("1")), (None, "1.0", Some("\u{e9}1")), (None, "1.0", Some("1-1")), (None, "1.0", Some("~")),
+    (None, "1.0", Some("\u{e9}\u{e9}1")), (Some(0), "1.0", None), (Some(1), "0", None), (Some(1), "\u{e9}1", None),
+    (Some(4294967295), "1", None), (None, "1 0", None), (None, "\u{0}1", None),
+];
+
+fn enc_raw(v: &(Option<u32>, &str, Option<&str>)) -> String {
+    format!("{}:{}:{}", v.0.map(|e| e.to_string()).unwrap_or_else(|| "none".to_string()), es(v.1), eopt(v.2))
+}
+
 /// relative positions of an installed version to the required `1.0-1`
 const POSITIONS: [(&str, &[&str]); 4] = [
     ("absent", &[]),
@@ -583,6 +696,28 @@ pub fn generate_c12(tier: &str, seed: u64, out: &mut Out) {
     // version texts around the validity border
     for v in ["", "-", ":", "1:", ":1", "a:1", "1_0", "1 0", "4294967296:1", "4294967295:1", "1.0-", "-1", "1-", "é"] {
         out.req("ver.cmp", &[es(v), es("1")]);
+    }
+    // ---- 1b. values built literally (fields are `pub`): non-ASCII before / between / after digits,
+    //      empty fields, hyphens in the revision, numbers around i32::MAX — all pairs
+    for a in RAW_VERSIONS {
+        for b in RAW_VERSIONS {
+            out.req("ver.cmpraw", &[enc_raw(&a), enc_raw(&b)]);
+        }
+    }
+    // ---- 1c. the three `VersionLookup` impls themselves, name by name
+    let lk_assigns: [&[(&str, &str)]; 7] = [
+        &[],
+        &[("a", "1")],
+        &[("A", "1")],
+        &[("a:amd64", "2")],
+        &[("a", "1"), ("b", "2:0")],
+        &[("a", "1"), ("a:amd64", "9"), ("A", "3")],
+        &[("", "1")],
+    ];
+    for asg in lk_assigns {
+        for n in ["a", "A", "b", "a:amd64", "", "a ", "\u{e9}", "ab"] {
+            out.req("lk.forms", &[enc_assign(asg), es(n)]);
+        }
     }
     // ---- 2. the complete decision table for one relation
     for op in OPS {
